@@ -265,13 +265,14 @@ Qed.
 
 (* the slab-and-broadcast result equals the ROI evaluated at every element of the view, whenever the view keeps
    the dimensionality; otherwise the generic path is taken *)
-Lemma roi_shortcut_view : forall (P : list Z -> bool) shape axis_ids view,
+Lemma roi_shortcut_view : forall (own : bool) (P : list Z -> bool) shape axis_ids view,
   Forall (fun a => 0 <= a) axis_ids ->
-  fst (roi_pixel_mask P shape axis_ids view) = sel_shape (sel_of shape view) /\
-  forall j, snd (roi_pixel_mask P shape axis_ids view) j = P (roi_coords axis_ids (to_under (sel_of shape view) j)).
+  fst (roi_pixel_mask own P shape axis_ids view) = sel_shape (sel_of shape view) /\
+  forall j, snd (roi_pixel_mask own P shape axis_ids view) j = P (roi_coords axis_ids (to_under (sel_of shape view) j)).
 Proof.
-  intros P shape ids view Hids. unfold roi_pixel_mask.
-  destruct (has_int view) eqn:Ei; simpl; (split; [reflexivity|]); intros j; [reflexivity|].
+  intros own P shape ids view Hids. unfold roi_pixel_mask.
+  destruct (has_int view) eqn:Ei; simpl; [split; [reflexivity|]; intros j; reflexivity|].
+  destruct own; simpl; (split; [reflexivity|]); intros j; [|reflexivity].
   rewrite roi_coords_collapse; [reflexivity|apply sel_of_no_int; exact Ei|exact Hids].
 Qed.
 
